@@ -1,4 +1,4 @@
-import Proofs.Lemmas.LowerClass
+import Proofs.Lemmas.LowerIcaseV
 /-!
 # ES specification ⇒ IR semantics: the induction over the AST
 
@@ -12,31 +12,47 @@ open Regress Regress.IR Regress.VM Regress.Parse
 
 /-! ## The supported fragment -/
 
+/-- Class-like atoms: without `i` (`classSupported`), with `i` under `u` (`classSupportedIU`) or
+with `i` under `v` (`classSupportedIV`). -/
+def classSupportedAny (fl : IR.Flags) (n : ES.Node) : Bool :=
+  classSupported fl n || (fl.icase && fl.unicode && !fl.unicodeSets && classSupportedIU fl n) ||
+    (fl.icase && fl.unicode && fl.unicodeSets && classSupportedIV fl n)
+
+theorem unicode_of_icase {fl : IR.Flags} (hs : fl.icase = false ∨ fl.unicode = true) (hfi : fl.icase = true) :
+    fl.unicode = true := by
+  rcases hs with h | h
+  · rw [hfi] at h; cases h
+  · exact h
+
+theorem applyMods_unicode (fl : IR.Flags) (m : Parse.Mods) : (applyMods fl m).unicode = fl.unicode := by
+  simp only [applyMods]
+  cases m.icase <;> cases m.multiline <;> cases m.dotAll <;> rfl
+
 mutual
 /-- The constructs for which the simulation is proved (stages A and B: everything except
 case-insensitive matching, `\\q{…}` strings and properties of strings; a named back-reference must
 resolve to a single group; class members must be valid code points). -/
 def supported (pattern : ES.Node) : IR.Flags → ES.Node → Bool
   | _, .empty => true
-  | fl, .char _ => !fl.icase
-  | fl, .dot => !fl.icase
+  | fl, .char _ => !fl.icase || fl.unicode
+  | fl, .dot => !fl.icase || fl.unicode
   | _, .bol => true
   | _, .eol => true
-  | fl, .wb => !fl.icase
-  | fl, .nwb => !fl.icase
+  | fl, .wb => !fl.icase || fl.unicode
+  | fl, .nwb => !fl.icase || fl.unicode
   | fl, .cat ns => supportedList pattern fl ns
   | fl, .alt ns => supportedList pattern fl ns
   | fl, .group _ _ n => supported pattern fl n
   | fl, .nc n => supported pattern fl n
   | fl, .mod add rem n => supported pattern (applyMods fl (modsOf add rem)) n
   | fl, .look _ _ n => supported pattern fl n
-  | fl, .bref _ => !fl.icase
-  | fl, .nref name => !fl.icase && (ES.groupSpecifiersThatMatch pattern name).length == 1
+  | fl, .bref _ => !fl.icase || fl.unicode
+  | fl, .nref name => (!fl.icase || fl.unicode) && (ES.groupSpecifiersThatMatch pattern name).length == 1
   | fl, .quant _ _ _ n => supported pattern fl n
-  | fl, .esc e => classSupported fl (.esc e)
-  | fl, .prop neg kind name => classSupported fl (.prop neg kind name)
-  | fl, .cls neg items => classSupported fl (.cls neg items)
-  | fl, .vcls neg op ops => classSupported fl (.vcls neg op ops)
+  | fl, .esc e => classSupportedAny fl (.esc e)
+  | fl, .prop neg kind name => classSupportedAny fl (.prop neg kind name)
+  | fl, .cls neg items => classSupportedAny fl (.cls neg items)
+  | fl, .vcls neg op ops => classSupportedAny fl (.vcls neg op ops)
 def supportedList (pattern : ES.Node) : IR.Flags → List ES.Node → Bool
   | _, [] => true
   | fl, n :: ns => supported pattern fl n && supportedList pattern fl ns
@@ -77,27 +93,60 @@ def ListSim (inp : Input) (cs : List Nat) (total : Nat) (pattern : ES.Node) (ns 
 mutual
 theorem lower_node (ht : Utf8Text inp cs) (pattern : ES.Node) (total : Nat) (htot : ES.countParens pattern ≤ total) :
     ∀ (n : ES.Node) (fl : IR.Flags) (rer : ES.RER) (pi : Nat) (back : Bool) (ir : Node),
-      FlagsRel rer fl → supported pattern fl n = true →
+      FlagsRel rer fl → inp.unicode = fl.unicode → supported pattern fl n = true →
       lowerNode pattern total n fl pi = .ok ir → pi + ES.countParens n ≤ total →
       ∃ ir', Parse.reverseCats back ir = .ok ir' ∧ NodeSim inp cs total pattern n rer pi back ir ir'
-  | .empty, fl, rer, pi, back, ir, hfl, hs, hl, hb => by
+  | .empty, fl, rer, pi, back, ir, hfl, hiu, hs, hl, hb => by
     simp only [lowerNode, Except.ok.injEq] at hl; subst hl
     apply NodeSim.leaf (by simp [Parse.reverseCats]) rfl rfl (by simp [InRange])
     simp only [ES.compileNode]
     exact sim_empty inp cs total _ _ _ _ (fun st => by simp [sem])
-  | .char c, fl, rer, pi, back, ir, hfl, hs, hl, hb => by
-    simp only [supported, Bool.not_eq_true'] at hs
-    simp only [lowerNode, charNode, hs, Bool.not_false, if_true, Except.ok.injEq] at hl; subst hl
-    apply NodeSim.leaf (by simp [Parse.reverseCats]) rfl rfl (by simp [InRange])
-    simp only [ES.compileNode]
-    have hic : rer.ignoreCase = false := by rw [hfl.icase]; exact hs
-    apply sim_charset ht total rer _ false back (fun c2 => c2 == c) _ _ _ (fun st => by simp only [sem])
-    intro ch _
-    simp [existsCanonMember_noicase hic, ES.CharSet.single]
-  | .dot, fl, rer, pi, back, ir, hfl, hs, hl, hb => by
-    simp only [supported, Bool.not_eq_true'] at hs
-    have hic : rer.ignoreCase = false := by rw [hfl.icase]; exact hs
+  | .char c, fl, rer, pi, back, ir, hfl, hiu, hs, hl, hb => by
+    simp only [supported, Bool.or_eq_true, Bool.not_eq_true'] at hs
+    cases hfi : fl.icase with
+    | false =>
+      simp only [lowerNode, charNode, hfi, Bool.not_false, if_true, Except.ok.injEq] at hl; subst hl
+      apply NodeSim.leaf (by simp [Parse.reverseCats]) rfl rfl (by simp [InRange])
+      simp only [ES.compileNode]
+      have hic : rer.ignoreCase = false := by rw [hfl.icase]; exact hfi
+      apply sim_charset ht total rer _ false back (fun c2 => c2 == c) _ _ _ (fun st => by simp only [sem])
+      intro ch _
+      simp [existsCanonMember_noicase hic, ES.CharSet.single]
+    | true =>
+      have hfu : fl.unicode = true := unicode_of_icase hs hfi
+      have hic : rer.ignoreCase = true := by rw [hfl.icase]; exact hfi
+      have hu : rer.hasEitherUnicodeFlag = true := by rw [hfl.unicode]; exact hfu
+      simp only [lowerNode] at hl
+      cases hcn : charNode fl c with
+      | error e => rw [hcn] at hl; cases hl
+      | ok n0 =>
+        rw [hcn] at hl
+        simp only [Except.ok.injEq] at hl; subst hl
+        obtain ⟨test, hsem, htest, hrv, hng, hin⟩ := charNode_icase (inp := inp) hfi hfu hcn
+        apply NodeSim.leaf (hrv back) rfl hng (hin _ _)
+        simp only [ES.compileNode]
+        exact sim_char_icase ht total rer hic hu c test n0 back _ _ (fun st => hsem _ st) htest
+  | .dot, fl, rer, pi, back, ir, hfl, hiu, hs, hl, hb => by
+    simp only [supported, Bool.or_eq_true, Bool.not_eq_true'] at hs
     simp only [lowerNode, Except.ok.injEq] at hl; subst hl
+    have htestAll : ∀ ch, Utf8.isScalar ch = true →
+        (ES.existsCanonMember rer
+          (if rer.dotAll then ES.allCharacters rer
+           else { chars := fun c => (ES.allCharacters rer).chars c && !ES.isLineTerminator c }) ch != false) =
+        (if fl.dotAll then true else !VM.isLineTerminator ch) := by
+      intro ch hsc
+      have hle := isScalar_le' hsc
+      cases hfi : fl.icase with
+      | false =>
+        have hic : rer.ignoreCase = false := by rw [hfl.icase]; exact hfi
+        rw [existsCanonMember_noicase hic]
+        cases hd : fl.dotAll <;>
+          simp [ES.allCharacters, hic, hfl.dotAll, hd, hle, es_isLT_eq]
+      | true =>
+        have hfu : fl.unicode = true := unicode_of_icase hs hfi
+        have hic : rer.ignoreCase = true := by rw [hfl.icase]; exact hfi
+        have hu : rer.hasEitherUnicodeFlag = true := by rw [hfl.unicode]; exact hfu
+        exact dot_icase_test hic hu fl.dotAll hfl.dotAll hle
     cases hd : fl.dotAll with
     | true =>
       simp only [if_true]
@@ -105,8 +154,9 @@ theorem lower_node (ht : Utf8Text inp cs) (pattern : ES.Node) (total : Nat) (hto
       simp only [ES.compileNode]
       apply sim_charset ht total rer _ false back (fun _ => true) _ _ _ (fun st => by simp only [sem])
       intro ch hsc
-      have := isScalar_le' hsc
-      simp [existsCanonMember_noicase hic, ES.allCharacters, hic, hfl.dotAll, hd, this]
+      have := htestAll ch hsc
+      simp only [hd, if_true] at this
+      exact this
     | false =>
       simp only [Bool.false_eq_true, if_false]
       apply NodeSim.leaf (by simp [Parse.reverseCats]) rfl rfl (by simp [InRange])
@@ -114,33 +164,52 @@ theorem lower_node (ht : Utf8Text inp cs) (pattern : ES.Node) (total : Nat) (hto
       apply sim_charset ht total rer _ false back (fun c => !VM.isLineTerminator c) _ _ _
         (fun st => by simp only [sem])
       intro ch hsc
-      have := isScalar_le' hsc
-      simp [existsCanonMember_noicase hic, ES.allCharacters, hic, hfl.dotAll, hd, this, es_isLT_eq]
-  | .bol, fl, rer, pi, back, ir, hfl, hs, hl, hb => by
+      have := htestAll ch hsc
+      simp only [hd, Bool.false_eq_true, if_false] at this
+      exact this
+  | .bol, fl, rer, pi, back, ir, hfl, hiu, hs, hl, hb => by
     simp only [lowerNode, Except.ok.injEq] at hl; subst hl
     apply NodeSim.leaf (by simp [Parse.reverseCats]) rfl rfl (by simp [InRange])
     simp only [ES.compileNode]
     exact sim_bol ht total rer _ _ hfl.multiline _ _
-  | .eol, fl, rer, pi, back, ir, hfl, hs, hl, hb => by
+  | .eol, fl, rer, pi, back, ir, hfl, hiu, hs, hl, hb => by
     simp only [lowerNode, Except.ok.injEq] at hl; subst hl
     apply NodeSim.leaf (by simp [Parse.reverseCats]) rfl rfl (by simp [InRange])
     simp only [ES.compileNode]
     exact sim_eol ht total rer _ _ hfl.multiline _ _
-  | .wb, fl, rer, pi, back, ir, hfl, hs, hl, hb => by
-    simp only [supported, Bool.not_eq_true'] at hs
-    have hic : rer.ignoreCase = false := by rw [hfl.icase]; exact hs
-    simp only [lowerNode, hs, Bool.and_false, Except.ok.injEq] at hl; subst hl
+  | .wb, fl, rer, pi, back, ir, hfl, hiu, hs, hl, hb => by
+    simp only [supported, Bool.or_eq_true, Bool.not_eq_true'] at hs
+    simp only [lowerNode, Except.ok.injEq] at hl; subst hl
     apply NodeSim.leaf (by simp [Parse.reverseCats]) rfl rfl (by simp [InRange])
     simp only [ES.compileNode]
-    exact sim_wordBoundary ht total rer false false _ _ _ (fun ch _ => by simp [wordCharacters_noicase hic])
-  | .nwb, fl, rer, pi, back, ir, hfl, hs, hl, hb => by
-    simp only [supported, Bool.not_eq_true'] at hs
-    have hic : rer.ignoreCase = false := by rw [hfl.icase]; exact hs
-    simp only [lowerNode, hs, Bool.and_false, Except.ok.injEq] at hl; subst hl
+    apply sim_wordBoundary ht total rer false (fl.unicode && fl.icase) _ _ _
+    intro ch _
+    cases hfi : fl.icase with
+    | false =>
+      have hic : rer.ignoreCase = false := by rw [hfl.icase]; exact hfi
+      simp [wordCharacters_noicase hic]
+    | true =>
+      have hfu : fl.unicode = true := unicode_of_icase hs hfi
+      have hic : rer.ignoreCase = true := by rw [hfl.icase]; exact hfi
+      have hu : rer.hasEitherUnicodeFlag = true := by rw [hfl.unicode]; exact hfu
+      simp [hfu, wordCharacters_icase hic hu]
+  | .nwb, fl, rer, pi, back, ir, hfl, hiu, hs, hl, hb => by
+    simp only [supported, Bool.or_eq_true, Bool.not_eq_true'] at hs
+    simp only [lowerNode, Except.ok.injEq] at hl; subst hl
     apply NodeSim.leaf (by simp [Parse.reverseCats]) rfl rfl (by simp [InRange])
     simp only [ES.compileNode]
-    exact sim_wordBoundary ht total rer true false _ _ _ (fun ch _ => by simp [wordCharacters_noicase hic])
-  | .cat ns, fl, rer, pi, back, ir, hfl, hs, hl, hb => by
+    apply sim_wordBoundary ht total rer true (fl.unicode && fl.icase) _ _ _
+    intro ch _
+    cases hfi : fl.icase with
+    | false =>
+      have hic : rer.ignoreCase = false := by rw [hfl.icase]; exact hfi
+      simp [wordCharacters_noicase hic]
+    | true =>
+      have hfu : fl.unicode = true := unicode_of_icase hs hfi
+      have hic : rer.ignoreCase = true := by rw [hfl.icase]; exact hfi
+      have hu : rer.hasEitherUnicodeFlag = true := by rw [hfl.unicode]; exact hfu
+      simp [hfu, wordCharacters_icase hic hu]
+  | .cat ns, fl, rer, pi, back, ir, hfl, hiu, hs, hl, hb => by
     simp only [supported] at hs
     simp only [lowerNode] at hl
     cases hxs : lowerList pattern total ns fl pi with
@@ -150,7 +219,7 @@ theorem lower_node (ht : Utf8Text inp cs) (pattern : ES.Node) (total : Nat) (hto
       simp only [Except.ok.injEq] at hl; subst hl
       simp only [ES.countParens] at hb
       obtain ⟨xs', hxs', ⟨hcat, _, hin⟩, hng, hid⟩ :=
-        lower_list ht pattern total htot ns fl rer pi back xs hfl hs hxs hb
+        lower_list ht pattern total htot ns fl rer pi back xs hfl hiu hs hxs hb
       refine ⟨_, reverseCats_makeCat_ok hxs', ?_,
         inRange_makeCat (fun x hx => hin x (by cases back <;> simpa using hx)), ?_, ?_⟩
       · intro fuel x st c k hr hlen hf hc
@@ -162,7 +231,7 @@ theorem lower_node (ht : Utf8Text inp cs) (pattern : ES.Node) (total : Nat) (hto
       · intro hb0 hlb; subst hb0
         simp only [hasLookbehind] at hlb
         simp [hid rfl hlb]
-  | .alt ns, fl, rer, pi, back, ir, hfl, hs, hl, hb => by
+  | .alt ns, fl, rer, pi, back, ir, hfl, hiu, hs, hl, hb => by
     simp only [supported] at hs
     simp only [lowerNode] at hl
     by_cases hne : ns.isEmpty = true
@@ -180,7 +249,7 @@ theorem lower_node (ht : Utf8Text inp cs) (pattern : ES.Node) (total : Nat) (hto
           | cons a t => obtain ⟨_, _, _, _, h⟩ := lowerList_cons.1 hxs; cases h
         simp only [ES.countParens] at hb
         obtain ⟨xs', hxs', ⟨_, halt, hin⟩, hng, hid⟩ :=
-          lower_list ht pattern total htot ns fl rer pi back xs hfl hs hxs hb
+          lower_list ht pattern total htot ns fl rer pi back xs hfl hiu hs hxs hb
         have hxne' : xs' ≠ [] := by
           intro h; have := reverseCatsList_length hxs'; rw [h] at this
           exact hxne (List.length_eq_zero_iff.1 this.symm)
@@ -193,7 +262,7 @@ theorem lower_node (ht : Utf8Text inp cs) (pattern : ES.Node) (total : Nat) (hto
         · intro hb0 hlb
           simp only [hasLookbehind] at hlb
           rw [hid hb0 hlb]
-  | .group idx name n, fl, rer, pi, back, ir, hfl, hs, hl, hb => by
+  | .group idx name n, fl, rer, pi, back, ir, hfl, hiu, hs, hl, hb => by
     simp only [supported] at hs
     simp only [lowerNode] at hl
     cases hc0 : lowerNode pattern total n fl (pi + 1) with
@@ -204,7 +273,7 @@ theorem lower_node (ht : Utf8Text inp cs) (pattern : ES.Node) (total : Nat) (hto
       simp only [ES.countParens] at hb
       have hrange : pi + 1 + ES.countParens n = pi + (1 + ES.countParens n) := by omega
       obtain ⟨c', hc', hsim, hin, hng, hid⟩ :=
-        lower_node ht pattern total htot n fl rer (pi + 1) back c0 hfl hs hc0 (by omega)
+        lower_node ht pattern total htot n fl rer (pi + 1) back c0 hfl hiu hs hc0 (by omega)
       rw [hrange] at hsim hin
       refine ⟨.group pi name c', by simp [Parse.reverseCats, hc'], ?_, ?_,
         by simp only [numGroups, hng, ES.countParens]; omega, ?_⟩
@@ -215,30 +284,30 @@ theorem lower_node (ht : Utf8Text inp cs) (pattern : ES.Node) (total : Nat) (hto
       · intro hb0 hlb
         simp only [hasLookbehind] at hlb
         rw [hid hb0 hlb]
-  | .nc n, fl, rer, pi, back, ir, hfl, hs, hl, hb => by
+  | .nc n, fl, rer, pi, back, ir, hfl, hiu, hs, hl, hb => by
     simp only [supported] at hs
     simp only [lowerNode] at hl
     simp only [ES.countParens] at hb
-    obtain ⟨ir', hrv, hsim, hin, hng, hid⟩ := lower_node ht pattern total htot n fl rer pi back ir hfl hs hl hb
+    obtain ⟨ir', hrv, hsim, hin, hng, hid⟩ := lower_node ht pattern total htot n fl rer pi back ir hfl hiu hs hl hb
     refine ⟨ir', hrv, ?_, ?_, ?_, ?_⟩
     · simpa only [ES.countParens, ES.compileNode] using hsim
     · simpa only [ES.countParens] using hin
     · simpa only [ES.countParens] using hng
     · simpa only [hasLookbehind] using hid
-  | .mod add rem n, fl, rer, pi, back, ir, hfl, hs, hl, hb => by
+  | .mod add rem n, fl, rer, pi, back, ir, hfl, hiu, hs, hl, hb => by
     simp only [supported] at hs
     simp only [lowerNode] at hl
     split at hl
     · cases hl
     · simp only [ES.countParens] at hb
       obtain ⟨ir', hrv, hsim, hin, hng, hid⟩ :=
-        lower_node ht pattern total htot n _ _ pi back ir (hfl.mods add rem) hs hl hb
+        lower_node ht pattern total htot n _ _ pi back ir (hfl.mods add rem) (by rw [applyMods_unicode]; exact hiu) hs hl hb
       refine ⟨ir', hrv, ?_, ?_, ?_, ?_⟩
       · simpa only [ES.countParens, ES.compileNode] using hsim
       · simpa only [ES.countParens] using hin
       · simpa only [ES.countParens] using hng
       · simpa only [hasLookbehind] using hid
-  | .look ahead neg n, fl, rer, pi, back, ir, hfl, hs, hl, hb => by
+  | .look ahead neg n, fl, rer, pi, back, ir, hfl, hiu, hs, hl, hb => by
     simp only [supported] at hs
     simp only [lowerNode] at hl
     cases hc0 : lowerNode pattern total n fl pi with
@@ -248,7 +317,7 @@ theorem lower_node (ht : Utf8Text inp cs) (pattern : ES.Node) (total : Nat) (hto
       simp only [Except.ok.injEq] at hl; subst hl
       simp only [ES.countParens] at hb
       obtain ⟨c', hc', hsim, hin, hng, hid⟩ :=
-        lower_node ht pattern total htot n fl rer pi (!ahead) c0 hfl hs hc0 hb
+        lower_node ht pattern total htot n fl rer pi (!ahead) c0 hfl hiu hs hc0 hb
       have hdir : (if ahead = true then ES.Direction.forward else ES.Direction.backward) = dirOf (!ahead) := by
         cases ahead <;> rfl
       simp only [Bool.not_not] at hsim
@@ -261,20 +330,26 @@ theorem lower_node (ht : Utf8Text inp cs) (pattern : ES.Node) (total : Nat) (hto
       · intro _ hlb
         simp only [hasLookbehind, Bool.or_eq_false_iff, Bool.not_eq_false'] at hlb
         rw [hid (by simp [hlb.1]) hlb.2]
-  | .bref k, fl, rer, pi, back, ir, hfl, hs, hl, hb => by
-    simp only [supported, Bool.not_eq_true'] at hs
-    have hic : rer.ignoreCase = false := by rw [hfl.icase]; exact hs
+  | .bref k, fl, rer, pi, back, ir, hfl, hiu, hs, hl, hb => by
+    simp only [supported, Bool.or_eq_true, Bool.not_eq_true'] at hs
     simp only [lowerNode] at hl
     split at hl
     · rename_i hk
       simp only [Except.ok.injEq] at hl; subst hl
       apply NodeSim.leaf (by simp [Parse.reverseCats]) rfl rfl (by simp [InRange])
-      simp only [ES.compileNode, hs]
-      exact sim_backref ht total rer hic k hk.1 hk.2 back _ _
+      simp only [ES.compileNode]
+      cases hfi : fl.icase with
+      | false =>
+        have hic : rer.ignoreCase = false := by rw [hfl.icase]; exact hfi
+        exact sim_backref ht total rer hic k hk.1 hk.2 back _ _
+      | true =>
+        have hfu : fl.unicode = true := unicode_of_icase hs hfi
+        have hic : rer.ignoreCase = true := by rw [hfl.icase]; exact hfi
+        have hu : rer.hasEitherUnicodeFlag = true := by rw [hfl.unicode]; exact hfu
+        exact sim_backref_icase ht (by rw [hiu]; exact hfu) total rer hic hu k hk.1 hk.2 back _ _
     · cases hl
-  | .nref name, fl, rer, pi, back, ir, hfl, hs, hl, hb => by
-    simp only [supported, Bool.and_eq_true, Bool.not_eq_true', beq_iff_eq] at hs
-    have hic : rer.ignoreCase = false := by rw [hfl.icase]; exact hs.1
+  | .nref name, fl, rer, pi, back, ir, hfl, hiu, hs, hl, hb => by
+    simp only [supported, Bool.and_eq_true, Bool.or_eq_true, Bool.not_eq_true', beq_iff_eq] at hs
     simp only [lowerNode] at hl
     match hg : ES.groupSpecifiersThatMatch pattern name, hs.2 with
     | [i], _ =>
@@ -282,9 +357,17 @@ theorem lower_node (ht : Utf8Text inp cs) (pattern : ES.Node) (total : Nat) (hto
       simp only [Except.ok.injEq] at hl; subst hl
       apply NodeSim.leaf (by simp [Parse.reverseCats]) rfl rfl (by simp [InRange])
       have hbd := groupSpecifiers_bound pattern name i (by rw [hg]; simp)
-      simp only [ES.compileNode, hg, hs.1]
-      exact sim_backref ht total rer hic i hbd.1 (by omega) back _ _
-  | .quant min max greedy n, fl, rer, pi, back, ir, hfl, hs, hl, hb => by
+      simp only [ES.compileNode, hg]
+      cases hfi : fl.icase with
+      | false =>
+        have hic : rer.ignoreCase = false := by rw [hfl.icase]; exact hfi
+        exact sim_backref ht total rer hic i hbd.1 (by omega) back _ _
+      | true =>
+        have hfu : fl.unicode = true := unicode_of_icase hs.1 hfi
+        have hic : rer.ignoreCase = true := by rw [hfl.icase]; exact hfi
+        have hu : rer.hasEitherUnicodeFlag = true := by rw [hfl.unicode]; exact hfu
+        exact sim_backref_icase ht (by rw [hiu]; exact hfu) total rer hic hu i hbd.1 (by omega) back _ _
+  | .quant min max greedy n, fl, rer, pi, back, ir, hfl, hiu, hs, hl, hb => by
     simp only [supported] at hs
     simp only [lowerNode] at hl
     have hq : ∀ mx, max = some mx → min ≤ mx := by
@@ -323,7 +406,7 @@ theorem lower_node (ht : Utf8Text inp cs) (pattern : ES.Node) (total : Nat) (hto
               | ok c0 => rw [hc0] at hl; simp only [Except.ok.injEq] at hl; exact ⟨c0, rfl, hl.symm⟩
     obtain ⟨c0, hc0, rfl⟩ := hl'
     simp only [ES.countParens] at hb
-    obtain ⟨c', hc', hsim, hin, hng, hid⟩ := lower_node ht pattern total htot n fl rer pi back c0 hfl hs hc0 hb
+    obtain ⟨c', hc', hsim, hin, hng, hid⟩ := lower_node ht pattern total htot n fl rer pi back c0 hfl hiu hs hc0 hb
     refine ⟨.loop c' ⟨min, max, greedy⟩ pi (pi + ES.countParens n), by simp [Parse.reverseCats, hc'], ?_,
       by simp only [InRange, ES.countParens]; exact ⟨Nat.le_refl _, Nat.le_refl _, hin⟩,
       by simpa [numGroups, ES.countParens] using hng, ?_⟩
@@ -333,26 +416,38 @@ theorem lower_node (ht : Utf8Text inp cs) (pattern : ES.Node) (total : Nat) (hto
     · intro hb0 hlb
       simp only [hasLookbehind] at hlb
       rw [hid hb0 hlb]
-  | .esc e, fl, rer, pi, back, ir, hfl, hs, hl, hb => by
-    simp only [supported] at hs
-    exact lower_class_node ht pattern total _ fl rer pi back ir hfl hs hl
-  | .prop neg kind name, fl, rer, pi, back, ir, hfl, hs, hl, hb => by
-    simp only [supported] at hs
-    exact lower_class_node ht pattern total _ fl rer pi back ir hfl hs hl
-  | .cls neg items, fl, rer, pi, back, ir, hfl, hs, hl, hb => by
-    simp only [supported] at hs
-    exact lower_class_node ht pattern total _ fl rer pi back ir hfl hs hl
-  | .vcls neg op ops, fl, rer, pi, back, ir, hfl, hs, hl, hb => by
-    simp only [supported] at hs
-    exact lower_class_node ht pattern total _ fl rer pi back ir hfl hs hl
+  | .esc e, fl, rer, pi, back, ir, hfl, hiu, hs, hl, hb => by
+    simp only [supported, classSupportedAny, Bool.or_eq_true, Bool.and_eq_true, Bool.not_eq_true'] at hs
+    rcases hs with (hs | ⟨⟨⟨h1, h2⟩, h3⟩, h4⟩) | ⟨⟨⟨h1, h2⟩, h3⟩, h4⟩
+    · exact lower_class_node ht pattern total _ fl rer pi back ir hfl hs hl
+    · exact lower_class_node_iu ht pattern total _ fl rer pi back ir hfl h1 h2 h3 h4 hl
+    · exact lower_class_node_iv ht pattern total _ fl rer pi back ir hfl h1 h2 h3 h4 hl
+  | .prop neg kind name, fl, rer, pi, back, ir, hfl, hiu, hs, hl, hb => by
+    simp only [supported, classSupportedAny, Bool.or_eq_true, Bool.and_eq_true, Bool.not_eq_true'] at hs
+    rcases hs with (hs | ⟨⟨⟨h1, h2⟩, h3⟩, h4⟩) | ⟨⟨⟨h1, h2⟩, h3⟩, h4⟩
+    · exact lower_class_node ht pattern total _ fl rer pi back ir hfl hs hl
+    · exact lower_class_node_iu ht pattern total _ fl rer pi back ir hfl h1 h2 h3 h4 hl
+    · exact lower_class_node_iv ht pattern total _ fl rer pi back ir hfl h1 h2 h3 h4 hl
+  | .cls neg items, fl, rer, pi, back, ir, hfl, hiu, hs, hl, hb => by
+    simp only [supported, classSupportedAny, Bool.or_eq_true, Bool.and_eq_true, Bool.not_eq_true'] at hs
+    rcases hs with (hs | ⟨⟨⟨h1, h2⟩, h3⟩, h4⟩) | ⟨⟨⟨h1, h2⟩, h3⟩, h4⟩
+    · exact lower_class_node ht pattern total _ fl rer pi back ir hfl hs hl
+    · exact lower_class_node_iu ht pattern total _ fl rer pi back ir hfl h1 h2 h3 h4 hl
+    · exact lower_class_node_iv ht pattern total _ fl rer pi back ir hfl h1 h2 h3 h4 hl
+  | .vcls neg op ops, fl, rer, pi, back, ir, hfl, hiu, hs, hl, hb => by
+    simp only [supported, classSupportedAny, Bool.or_eq_true, Bool.and_eq_true, Bool.not_eq_true'] at hs
+    rcases hs with (hs | ⟨⟨⟨h1, h2⟩, h3⟩, h4⟩) | ⟨⟨⟨h1, h2⟩, h3⟩, h4⟩
+    · exact lower_class_node ht pattern total _ fl rer pi back ir hfl hs hl
+    · exact lower_class_node_iu ht pattern total _ fl rer pi back ir hfl h1 h2 h3 h4 hl
+    · exact lower_class_node_iv ht pattern total _ fl rer pi back ir hfl h1 h2 h3 h4 hl
 theorem lower_list (ht : Utf8Text inp cs) (pattern : ES.Node) (total : Nat) (htot : ES.countParens pattern ≤ total) :
     ∀ (ns : List ES.Node) (fl : IR.Flags) (rer : ES.RER) (pi : Nat) (back : Bool) (xs : List Node),
-      FlagsRel rer fl → supportedList pattern fl ns = true →
+      FlagsRel rer fl → inp.unicode = fl.unicode → supportedList pattern fl ns = true →
       lowerList pattern total ns fl pi = .ok xs → pi + ES.countParensList ns ≤ total →
       ∃ xs', reverseCatsList back xs = .ok xs' ∧
         ListSim inp cs total pattern ns rer pi back xs' ∧ numGroupsList xs' = ES.countParensList ns ∧
         (back = false → hasLookbehindList ns = false → xs' = xs)
-  | [], fl, rer, pi, back, xs, hfl, hs, hl, hb => by
+  | [], fl, rer, pi, back, xs, hfl, hiu, hs, hl, hb => by
     simp only [lowerList, Except.ok.injEq] at hl; subst hl
     refine ⟨[], by simp [reverseCatsList], ⟨?_, ?_, by simp⟩, by simp [numGroupsList, ES.countParensList],
       fun _ _ => rfl⟩
@@ -361,14 +456,14 @@ theorem lower_list (ht : Utf8Text inp cs) (pattern : ES.Node) (total : Nat) (hto
       exact hc x st (by simp) hr
     · intro fuel x st c k _ _ _ _
       simp [ES.compileDisjunction, ResRel]
-  | n :: ns, fl, rer, pi, back, xs, hfl, hs, hl, hb => by
+  | n :: ns, fl, rer, pi, back, xs, hfl, hiu, hs, hl, hb => by
     simp only [supportedList, Bool.and_eq_true] at hs
     obtain ⟨x0, xs0, hx0, hxs0, rfl⟩ := lowerList_cons.1 hl
     simp only [ES.countParensList] at hb
     obtain ⟨x1, hx1, hsimN, hinN, hngN, hidN⟩ :=
-      lower_node ht pattern total htot n fl rer pi back x0 hfl hs.1 hx0 (by omega)
+      lower_node ht pattern total htot n fl rer pi back x0 hfl hiu hs.1 hx0 (by omega)
     obtain ⟨xs1, hxs1, ⟨hcatL, haltL, hinL⟩, hngL, hidL⟩ :=
-      lower_list ht pattern total htot ns fl rer (pi + ES.countParens n) back xs0 hfl hs.2 hxs0 (by omega)
+      lower_list ht pattern total htot ns fl rer (pi + ES.countParens n) back xs0 hfl hiu hs.2 hxs0 (by omega)
     have hrangeL : pi + ES.countParens n + ES.countParensList ns = pi + (ES.countParens n + ES.countParensList ns) := by
       omega
     refine ⟨x1 :: xs1, reverseCatsList_cons.2 ⟨x1, xs1, hx1, hxs1, rfl⟩, ⟨?_, ?_, ?_⟩,
